@@ -760,22 +760,51 @@ class Interp:
         raise Unsupported('address of %r' % (a,))
 
     # ------------------------------------------------------------------ arithmetic with intervals
-    def sym_of(self, bv):
+    def sym_of(self, bv, st=None):
+        """name of the symbol this value *is* (its non-constant bits are that symbol's bits at their own positions).
+        With a state, every constant bit must also be a known fact about the symbol (recorded refinement, bit implied
+        by its range) - a value like x & 0xff shares x's bits but is not x."""
         name = None
+        moved = []
         for i, b in enumerate(bv.bits):
             if b in (0, 1):
                 continue
-            if b == TOP or b[0] != 'v' or b[3] or b[2] != i:
+            if b == TOP or b[0] != 'v' or b[3]:
                 return None
+            if b[2] != i:
+                # a copy of another bit of the same symbol is fine when that equality is a recorded fact (x.i == x.k)
+                if st is None:
+                    return None
+                moved.append((i, b))
             if name is None:
                 name = b[1]
             elif name != b[1]:
                 return None
+        for i, b in moved:
+            if st.env.get((name, i)) != b:
+                return None
+        if name is None or st is None:
+            return name
+        r = st.rng.get(name)
+        lo = hi = None
+        if r:
+            lo, hi = min(a for a, _ in r), max(b2 for _, b2 in r)
+        for i, b in enumerate(bv.bits):
+            if b not in (0, 1):
+                continue
+            e = st.env.get((name, i))
+            if e == b:
+                continue
+            if r and (lo >> i) == (hi >> i) and ((lo >> i) & 1) == b:
+                continue
+            if e is None and not r and False:
+                continue
+            return None
         return name
 
     def rng_of(self, st, bv):
         lo, hi = bits_min(bv.bits), bits_max(bv.bits)
-        n = self.sym_of(bv)
+        n = self.sym_of(bv, st)
         if n is not None and n in st.rng:
             out = []
             for a, b in st.rng[n]:
@@ -841,6 +870,8 @@ class Interp:
         st.rng[name] = list(r)
         if aff is not None:
             st.defs[name] = (aff, w, exact)
+        for i in range(zeros):
+            st.env[(name, i)] = 0
         bv = BV(w, [0] * zeros + [lit(name, i) for i in range(zeros, w)], signed)
         return self.reduce_bits(st, bv)
 
@@ -849,7 +880,7 @@ class Interp:
         their definitions (only where that is exact for the width at hand)"""
         if not isinstance(bv, BV):
             return None
-        n = self.sym_of(bv)
+        n = self.sym_of(bv, st)
         if n is not None and n in st.defs:
             aff, w, exact = st.defs[n]
             if w == bv.w or exact:
@@ -864,7 +895,7 @@ class Interp:
         definition was shown not to wrap on this path"""
         if not isinstance(bv, BV):
             return None
-        n = self.sym_of(bv)
+        n = self.sym_of(bv, st)
         if n is not None and n in st.defs:
             aff, w, exact = st.defs[n]
             return self.expand_aff(st, aff) if exact else None
@@ -976,7 +1007,7 @@ class Interp:
                     res = self.fresh_num(st, a.w, b0.lower(), [(lo, hi)], z, a.signed, aff, exact=True)
                 elif aff is not None:
                     res = self.fresh_num(st, a.w, b0.lower(), [(0, m - 1)], z, a.signed, aff, exact=False)
-                symname = self.sym_of(res)
+                symname = self.sym_of(res, st)
             if wo:
                 if must:
                     ov = BV.const(1, 1)
@@ -1054,21 +1085,21 @@ class Interp:
             if ra and rb and not a.signed:
                 if max(y for _, y in ra) < min(x for x, _ in rb) or max(y for _, y in rb) < min(x for x, _ in ra):
                     return BV.const(1, int(op == 'Ne'))
-            da, db = self.sym_of(a), self.sym_of(b)
+            da, db = self.sym_of(a, st), self.sym_of(b, st)
             if a.has_top() or b.has_top() or (da in st.defs) or (db in st.defs):
-                # bit-level payloads with unknown bits would alias distinct comparisons: key the predicate by the
-                # affine difference (a - b == 0), or make it unique
                 aa, ab = self.aff_of(st, a), self.aff_of(st, b)
-                if not (a.has_top() or b.has_top()) and (aa is None or ab is None):
-                    return self.apply_facts(st, r)
                 if aa is not None and ab is not None:
                     d = aa.add(ab, -1).norm(a.w)
                     if d.is_const():
                         return BV.const(1, int((d.const == 0) == (op == 'Eq')))
-                    pb = pred('affeq', (a.w, d.key()))
-                else:
-                    pb = pred('opaque-eq', next(self.counter))
-                r = BV(1, [pb if op == 'Eq' else b_not(pb)])
+                if a.has_top() or b.has_top():
+                    # bit-level payloads with unknown bits would alias distinct comparisons: key the predicate by the
+                    # affine difference (a - b == 0), or make it unique
+                    if aa is not None and ab is not None:
+                        pb = pred('affeq', (a.w, d.key()))
+                    else:
+                        pb = pred('opaque-eq', next(self.counter))
+                    r = BV(1, [pb if op == 'Eq' else b_not(pb)])
             return self.apply_facts(st, r)
         if a.signed:
             return r
@@ -1249,6 +1280,10 @@ class Interp:
                 if not out:
                     st.dead = True
         st.rel = [(s, map_value(a, fb), map_value(b, fb)) for s, a, b in st.rel]
+        for s in {k[0] for k in env if k[0] in st.defs}:
+            self.back_propagate(st, s)
+        if st.rel and not st.dead and any(k[0] in st.rng for k in env):
+            self.propagate(st)
 
     def resub(self, st, v):
         """re-evaluate a value captured before refinements of `st` (literal substitutions and facts)"""
@@ -1264,7 +1299,7 @@ class Interp:
         return map_value(v, fb)
 
     def narrow(self, st, bv, lo=None, hi=None, prop=True):
-        n = self.sym_of(bv)
+        n = self.sym_of(bv, st)
         if n is None:
             return
         z = bv.low_zeros()
@@ -1294,8 +1329,35 @@ class Interp:
                     break
             if env:
                 self.apply_env(st, env)
+            self.back_propagate(st, n)
             if prop:
                 self.propagate(st)
+
+    def back_propagate(self, st, n):
+        """a result symbol defined exactly as c*x + k bounds its operand x"""
+        d = st.defs.get(n)
+        r = st.rng.get(n)
+        if d is None or not d[2] or len(d[0].terms) != 1 or st.dead or not r:
+            return
+        (xs, xlo, xhi), c = next(iter(d[0].terms.items()))
+        k = d[0].const
+        if c <= 0:
+            return
+        if xlo != 0:
+            # c * x[lo..hi] with x's low `lo` bits known zero is (c >> lo) * x
+            if c % (1 << xlo) or not all(st.env.get((xs, i)) == 0 for i in range(xlo)):
+                return
+            c >>= xlo
+        xr = st.rng.get(xs)
+        whole = xhi >= 64 or (xr and max(y for _, y in xr) < (1 << xhi))
+        if not whole:
+            return
+        lo2, hi2 = min(a for a, _ in r), max(b for _, b in r)
+        nlo = -(-(lo2 - k) // c)
+        nhi = (hi2 - k) // c
+        cur = xr or [(0, (1 << 64) - 1)]
+        if nlo > min(a for a, _ in cur) or nhi < max(b for _, b in cur):
+            self.narrow(st, self.reduce_bits(st, BV.sym(64, xs)), max(nlo, 0), nhi, prop=False)
 
     def propagate(self, st):
         for _ in range(8):
